@@ -241,6 +241,11 @@ func c02UpsertRemove(p *Prog, r *Report, pools []poolInfo) {
 		r.Floor("C02.R1", nApp, 1, "append sites of "+pl.name)
 		r.Floor("C02.R2", nRem, 1, "removal sites of "+pl.name)
 	}
+	rbMirrorAndReset(p, r, pools, "C02.R2")
+}
+
+// rbMirrorAndReset: rebalancer ordering — wrapped balancer call -> shadow list update -> reset, on success paths.
+func rbMirrorAndReset(p *Prog, r *Report, pools []poolInfo, rule string) {
 	// rebalancer ordering: wrapped balancer call -> shadow list update -> reset, on success paths
 	rb := p.Named("roundrobin", "Rebalancer")
 	if rb == nil {
@@ -254,7 +259,7 @@ func c02UpsertRemove(p *Prog, r *Report, pools []poolInfo) {
 		}
 	}
 	if resetFn == nil || poolF == "" {
-		r.Anchor("C02.R2", "roundrobin.Rebalancer.reset", "reset routine / pool not found")
+		r.Anchor(rule, "roundrobin.Rebalancer.reset", "reset routine / pool not found")
 		return
 	}
 	reset := NewEvents(p, func(in ssa.Instruction) bool { return IsCallTo(in, resetFn) })
@@ -265,7 +270,7 @@ func c02UpsertRemove(p *Prog, r *Report, pools []poolInfo) {
 	for _, mn := range []string{"UpsertServer", "RemoveServer"} {
 		m := p.MethodOf(rb, mn)
 		if m == nil {
-			r.Anchor("C02.R2", "roundrobin.Rebalancer."+mn, "method not found")
+			r.Anchor(rule, "roundrobin.Rebalancer."+mn, "method not found")
 			continue
 		}
 		r.Fn(FName(m))
@@ -305,8 +310,8 @@ func c02UpsertRemove(p *Prog, r *Report, pools []poolInfo) {
 				badReset = ret
 			}
 		}
-		r.Check(badInner == nil, "C02.R2", what+": mirrored into the wrapped balancer", p.FuncPos(m), "every successful return has passed the wrapped balancer's "+mn, "a successful return is reachable without changing the wrapped balancer"+posOf(p, badInner))
-		r.Check(badReset == nil, "C02.R2", what+": reset() on success", p.FuncPos(m), "every successful return has passed reset() (configured weights re-applied to the wrapped balancer)", "a successful return is reachable without reset()"+posOf(p, badReset))
+		r.Check(badInner == nil, rule, what+": mirrored into the wrapped balancer", p.FuncPos(m), "every successful return has passed the wrapped balancer's "+mn, "a successful return is reachable without changing the wrapped balancer"+posOf(p, badInner))
+		r.Check(badReset == nil, rule, what+": reset() on success", p.FuncPos(m), "every successful return has passed reset() (configured weights re-applied to the wrapped balancer)", "a successful return is reachable without reset()"+posOf(p, badReset))
 		// ordering: no shadow-list store before the inner call; reset only after the shadow update
 		var impl []*ssa.Function
 		impl = append(impl, m)
@@ -334,7 +339,7 @@ func c02UpsertRemove(p *Prog, r *Report, pools []poolInfo) {
 								bad = true
 							}
 						}
-						r.Check(!bad, "C02.R2", what+": shadow-list update in "+FName(f)+" followed by reset()", p.InstrPos(st), "ok", "the shadow list is changed and a successful return follows without reset()")
+						r.Check(!bad, rule, what+": shadow-list update in "+FName(f)+" followed by reset()", p.InstrPos(st), "ok", "the shadow list is changed and a successful return follows without reset()")
 					}
 				}
 			}
